@@ -2,7 +2,7 @@
    literal table renaming.  rename_stmt (Model/Names.v) prefixes table names and the table part of the derived
    uq_/ix_/fk_ names; column definitions, column lists, CHECK names and expressions, fill values, raw SQL are
    untouched.  Pinned statements only. *)
-From VV.M1 Require Import PrefixP PrefixApplyP.
+From VV.M1 Require Import PrefixHyp PrefixP PrefixApplyP.
 From VV.MYSQL Require Import Names PrefixGenP.
 
 Theorem C14_mysql_gen_equivariant : forall p s P P' a, no_dot p ->
@@ -32,26 +32,39 @@ Check C14_mysql_names : forall p t cols key,
   rename_name p (build_index_name t cols key) = build_index_name (p +++ t) cols key /\
   rename_name p (build_foreign_key_name t cols key) = build_foreign_key_name (p +++ t) cols key.
 
-(* D10 on MySQL: MigrationAction::with_prefix is NOT the literal renaming when a column carries an inline
-   foreign_key: the emitted CREATE TABLE references `user`, not `app_user` *)
-Theorem C14_mysql_with_prefix_inline_fk_refuted :
+(* D10 repaired (/repo 6c63462: with_prefix now prefixes inline foreign_key targets): MigrationAction::with_prefix
+   is the literal renaming whenever every inline foreign key parses (VV.M1 with_prefix_is_literal), hence the
+   MySQL statements generated from a prefixed action are the renamed statements of the original one *)
+Theorem C14_mysql_with_prefix_equivariant : forall p s P P' a, no_dot p -> p <> "" -> inline_fks_parse a = true ->
+  gen (literal_schema p s) P' (action_with_prefix p a) = rename_result p (gen s P a).
+Proof.
+  intros p s P P' a Hd Hp Hf. rewrite (with_prefix_is_literal p a Hp Hf). apply gen_equivariant. exact Hd.
+Qed.
+Print Assumptions C14_mysql_with_prefix_equivariant.
+Check C14_mysql_with_prefix_equivariant : forall p s P P' a, no_dot p -> p <> "" -> inline_fks_parse a = true ->
+  gen (literal_schema p s) P' (action_with_prefix p a) = rename_result p (gen s P a).
+
+(* the former D10 witness: the emitted CREATE TABLE now references `app_user` *)
+Theorem C14_mysql_with_prefix_inline_fk :
   let a := CreateTable "post"
              [mkCol "id" (TSimple Integer) false None None (Some (PKBool true)) None None None;
               mkCol "user_id" (TSimple Integer) true None None None None None (Some (FKStr "user.id"))] [] in
+  inline_fks_parse a = true /\
   match gen [] [] (action_with_prefix "app_" a), gen [] [] (literal_action "app_" a) with
   | Ok (SCreateTable t1 _ _ [f1] _ :: _), Ok (SCreateTable t2 _ _ [f2] _ :: _) =>
-      t1 = "app_post" /\ t2 = "app_post" /\ fk_rtable f1 = "user" /\ fk_rtable f2 = "app_user"
+      t1 = "app_post" /\ t2 = "app_post" /\ fk_rtable f1 = "app_user" /\ fk_rtable f2 = "app_user" /\ fk_name f1 = "fk_app_post__user_id"
   | _, _ => False
   end.
 Proof. vm_compute. repeat split; reflexivity. Qed.
-Print Assumptions C14_mysql_with_prefix_inline_fk_refuted.
-Check C14_mysql_with_prefix_inline_fk_refuted :
+Print Assumptions C14_mysql_with_prefix_inline_fk.
+Check C14_mysql_with_prefix_inline_fk :
   let a := CreateTable "post"
              [mkCol "id" (TSimple Integer) false None None (Some (PKBool true)) None None None;
               mkCol "user_id" (TSimple Integer) true None None None None None (Some (FKStr "user.id"))] [] in
+  inline_fks_parse a = true /\
   match gen [] [] (action_with_prefix "app_" a), gen [] [] (literal_action "app_" a) with
   | Ok (SCreateTable t1 _ _ [f1] _ :: _), Ok (SCreateTable t2 _ _ [f2] _ :: _) =>
-      t1 = "app_post" /\ t2 = "app_post" /\ fk_rtable f1 = "user" /\ fk_rtable f2 = "app_user"
+      t1 = "app_post" /\ t2 = "app_post" /\ fk_rtable f1 = "app_user" /\ fk_rtable f2 = "app_user" /\ fk_name f1 = "fk_app_post__user_id"
   | _, _ => False
   end.
 
